@@ -72,7 +72,8 @@ structure Peer where
   shouldInterested : Bool := false
   amInterested : Bool := false
   requests : Requests := {}
-  wlen : Nat := 0
+  /-- the writer queue: the messages as they were when `write` queued them -/
+  wq : List Msg := []
   wcap : Nat := 64
   wblocked : Bool := false
   pex : PexState := {}
@@ -100,12 +101,12 @@ structure Ctx where
   panic : Bool := false
 
 /-- `isCongested`: `len(writer) > cap(writer)/2` -/
-def isCongested (p : Peer) : Bool := if p.wblocked then false else p.wlen > p.wcap / 2
+def isCongested (p : Peer) : Bool := if p.wblocked then false else p.wq.length > p.wcap / 2
 
 /-- `write`: succeeds iff the queue has room (single producer).  `ghost` is logged. -/
 def write (c : Ctx) (ghost : Peer) (m : Msg) : Ctx × Bool :=
-  if !c.p.wblocked && c.p.wlen < c.p.wcap then
-    ({ c with p := { c.p with wlen := c.p.wlen + 1 }, emits := c.emits ++ [⟨ghost, m⟩] }, true)
+  if !c.p.wblocked && c.p.wq.length < c.p.wcap then
+    ({ c with p := { c.p with wq := c.p.wq ++ [m] }, emits := c.emits ++ [⟨ghost, m⟩] }, true)
   else (c, false)
 
 /-- `drop`: `TorDrop{fromChunk(chunk), ChunkSize}` -/
@@ -258,6 +259,10 @@ structure Out where
   drops : List (Nat × Nat)
   /-- which branch fired (coverage) -/
   tag : String
+  /-- what a `drain` hands to the connection: the messages as they were when they were queued
+      (the real queue holds the message objects; a later change of the state they were built
+      from must not show in them) -/
+  drained : List Msg := []
 
 def u32 (n : Nat) : UInt32 := UInt32.ofNat n
 
@@ -392,7 +397,7 @@ def handle (p : Peer) : Op → Ctx × Bool × String
     ((if expired then maybeRequest K c else c), false, if expired then "expire-dropped" else "expire")
   | .sendPex => (sendPex { p := p }, false, "sendpex")
   | .age d => ({ p := { p with requests := Requests.age p.requests d } }, false, "age")
-  | .drain k => ({ p := { p with wlen := p.wlen - k } }, false, "drain")
+  | .drain k => ({ p := { p with wq := p.wq.drop k } }, false, "drain")
   | .wblock b => ({ p := { p with wblocked := b } }, false, "wblock")
 
 /-- environment ops are always possible; protocol ops only on a live peer -/
@@ -401,12 +406,15 @@ def Op.isEnv : Op → Bool
   | _ => false
 
 def step (p : Peer) (op : Op) : Peer × Out :=
-  if p.dead && !op.isEnv then (p, ⟨.dead, [], [], "dead"⟩)
+  if p.dead && !op.isEnv then (p, ⟨.dead, [], [], "dead", []⟩)
   else
     let (c, err, tag) := handle p op
-    if c.panic then ({ c.p with dead := true }, ⟨.panic, c.emits, c.drops, tag ++ "!panic"⟩)
-    else if err then ({ c.p with dead := true }, ⟨.err, c.emits, c.drops, tag⟩)
-    else (c.p, ⟨.ok, c.emits, c.drops, tag⟩)
+    let drained := match op with
+      | .drain k => p.wq.take k
+      | _ => []
+    if c.panic then ({ c.p with dead := true }, ⟨.panic, c.emits, c.drops, tag ++ "!panic", drained⟩)
+    else if err then ({ c.p with dead := true }, ⟨.err, c.emits, c.drops, tag, drained⟩)
+    else (c.p, ⟨.ok, c.emits, c.drops, tag, drained⟩)
 
 /-- all emissions of a history -/
 def trace : Peer → List Op → List Emission
